@@ -31,6 +31,8 @@ func send[T any](ch chan T, v T) bool {
 	}
 }
 
+var sigCount = map[string]int{}
+
 func runCase(run *hx.Run, ops []op) {
 	var w *world
 	var orc *oracle
@@ -107,8 +109,11 @@ func runCase(run *hx.Run, ops []op) {
 			}
 			for _, v := range orc.observe(p, atoms) {
 				run.Tag("oracle/" + v.sig)
-				if !reported[v.sig] {
+				// at most 3 reports per cause signature and run: hx keeps only the first 50 violations, and a
+				// frequent known cause must not crowd out a different one
+				if !reported[v.sig] && sigCount[v.sig] < 3 {
 					reported[v.sig] = true
+					sigCount[v.sig]++
 					run.Violate(v.sig, v.detail, lines...)
 				}
 			}
@@ -304,7 +309,9 @@ func main() {
 		flush()
 		return
 	}
-	r := hx.NewRng(run.Seed)
+	// hx.NewRng(seed) starts the splitmix64 stream at seed*gamma: seeds that differ by d produce the same stream shifted
+	// by d draws. Re-seed with an OUTPUT of that stream (a hash of the seed) so that different seeds give unrelated runs.
+	r := hx.NewRng(hx.NewRng(run.Seed).U64())
 	for i := 0; i < run.N; i++ {
 		runCase(run, genCase(r, run.Tier))
 	}
